@@ -156,6 +156,13 @@ func c09Explore(c *core.Ctx, r *core.Result, period uint64, depth int) {
 							what := strings.Join(canon.TablesDiffering(ref.dump, ns.dump), "+")
 							if len(ref.cache.data[fat2.PTickerUSD]) != len(ns.cache.data[fat2.PTickerUSD]) {
 								what = "averaging-windows-of-different-length"
+								// the known count-versus-height trimming leaves both windows as SUFFIXES of the recorded rate
+								// history, of different length; a window holding anything else is a different defect
+								if lv, e := ReadLedger(drive.DBFileOf(ns.dir + "/db")); e == nil {
+									if !c09WindowIsSuffix(ref.cache, lv) || !c09WindowIsSuffix(ns.cache, lv) {
+										what = "averaging-window-is-not-a-suffix-of-the-recorded-rates"
+									}
+								}
 							}
 							vkey := fmt.Sprintf("%s/%s/[%s]vs[%s]", era.Name, ns.prefix, ref.restarts, ns.restarts)
 							if c.Want(vkey) || c.Only != "" {
@@ -200,6 +207,30 @@ func c09Explore(c *core.Ctx, r *core.Result, period uint64, depth int) {
 	var ks []string
 	_ = ks
 	sort.Strings(ks)
+}
+
+// c09WindowIsSuffix reports whether the cached window holds, for each probed asset, exactly the recorded rates
+// of the last len(window) rated heights up to the cache height, oldest first.
+func c09WindowIsSuffix(c cacheCopy, v *LedgerView) bool {
+	var rated []uint32
+	for _, h := range v.RatedHeights() {
+		if h <= c.height {
+			rated = append(rated, h)
+		}
+	}
+	for _, t := range []fat2.PTicker{fat2.PTickerPEG, fat2.PTickerEUR, fat2.PTickerFCT, fat2.PTickerXBT, fat2.PTickerJPY} {
+		win := c.data[t]
+		if len(win) > len(rated) {
+			return false
+		}
+		hs := rated[len(rated)-len(win):]
+		for i, h := range hs {
+			if v.Rates[h][t.String()] != win[i] {
+				return false
+			}
+		}
+	}
+	return true
 }
 
 // c09Apply clones the state, optionally restarts (drops the cache), appends one block of type t and applies it.
